@@ -33,8 +33,11 @@ type Server struct {
 	settingsMu            sync.RWMutex
 	supportsConfiguration bool
 	payeeTemplatesCache   sync.Map // map[protocol.DocumentURI]map[string][]analyzer.PostingTemplate
-	publishMu             sync.Mutex
-	docMu                 sync.Mutex // a document's text and its recorded include resolution change together
+	// failedIncludes: per document, the files its last analysis could not read
+	// (they are not in its recorded tree, yet it depends on them)
+	failedIncludes sync.Map // map[protocol.DocumentURI]map[string]bool
+	publishMu      sync.Mutex
+	docMu          sync.Mutex // a document's text and its recorded include resolution change together
 	// docVersions counts the open/change/close notifications per document (guarded
 	// by docMu): an analysis is superseded when a later notification arrived, even
 	// if the text is the same again
@@ -193,8 +196,9 @@ func (s *Server) DidOpen(ctx context.Context, params *protocol.DidOpenTextDocume
 		s.loader.InvalidateFile(path)
 		// the documents that include this file follow its include lines as they
 		// stand in the editor, which need not be those of the saved file
-		saved, _ := os.ReadFile(path)
-		if includeLines(string(saved)) != includeLines(params.TextDocument.Text) {
+		saved, err := os.ReadFile(path)
+		if err != nil || includeLines(string(saved)) != includeLines(params.TextDocument.Text) {
+			// (a file that exists in the editor only was missing for them so far)
 			s.reanalyseIncluders(ctx, path, params.TextDocument.URI)
 		}
 	}
@@ -249,6 +253,7 @@ func (s *Server) DidClose(ctx context.Context, params *protocol.DidCloseTextDocu
 	s.docMu.Lock()
 	s.documents.Delete(params.TextDocument.URI)
 	s.resolved.Delete(params.TextDocument.URI)
+	s.failedIncludes.Delete(params.TextDocument.URI)
 	s.nextDocVersionLocked(params.TextDocument.URI)
 	s.docMu.Unlock()
 	s.dropPayeeTemplates(params.TextDocument.URI)
@@ -286,7 +291,7 @@ func (s *Server) reanalyseIncluders(ctx context.Context, path string, except pro
 			if !isTree || resolved == nil {
 				return true
 			}
-			if _, included := resolved.Files[path]; !included {
+			if _, included := resolved.Files[path]; !included && !s.includeFailed(docURI, path) {
 				return true
 			}
 		}
@@ -324,6 +329,16 @@ func (s *Server) DidSave(ctx context.Context, params *protocol.DidSaveTextDocume
 		s.reanalyseIncluders(ctx, path, params.TextDocument.URI)
 	}
 	return nil
+}
+
+// includeFailed reports whether the document's last analysis could not read the file.
+func (s *Server) includeFailed(docURI protocol.DocumentURI, path string) bool {
+	if value, ok := s.failedIncludes.Load(docURI); ok {
+		if failed, ok := value.(map[string]bool); ok {
+			return failed[path]
+		}
+	}
+	return false
 }
 
 // hasIncludeLine reports whether some line of the text starts with the include keyword.
@@ -405,6 +420,13 @@ func (s *Server) publishDiagnosticsVersion(ctx context.Context, docURI protocol.
 	s.resolved.Store(docURI, resolved)
 	// posting templates computed while no tree was recorded know this file only
 	s.payeeTemplatesCache.Delete(docURI)
+	failed := map[string]bool{}
+	for _, loadErr := range loadErrors {
+		if loadErr.Kind == include.ErrorFileNotFound || loadErr.Kind == include.ErrorReadError {
+			failed[loadErr.Path] = true
+		}
+	}
+	s.failedIncludes.Store(docURI, failed)
 	s.docMu.Unlock()
 
 	var diagnostics []protocol.Diagnostic
